@@ -158,9 +158,6 @@ def _attrs_of(hdr: str, name: str):
 
 def syntax_class(hdr: str):
     """Off-lattice spelling of a Set-Cookie string (the 'extras' of gen()), or None."""
-    doms = _attrs_of(hdr, "domain")
-    if doms and doms[-1] != doms[-1].lower():
-        return "domain_attribute_not_lower_case"
     if any(R._delta_seconds(m) is None for m in _attrs_of(hdr, "max-age")):
         return "max_age_not_rfc_syntax"
     exps = _attrs_of(hdr, "expires")
@@ -791,6 +788,10 @@ def run(scn, ch, log=False):
             family.setdefault(fam, []).append(tag)
             if len(family[fam]) > 1:
                 probe("same_name_in_domain")
+            doms = _attrs_of(hdr, "domain")
+            if doms and doms[-1] != doms[-1].lower():
+                # (was a divergence class of its own, C16-F6, until aiohttp was repaired)
+                probe("extra_domain_attribute_not_lower_case")
             syn = syntax_class(hdr)
             if syn:
                 family_syntax.setdefault(fam, syn)
